@@ -110,8 +110,7 @@ def report(v, prop, jobs, res):
 
 
 def check_adv(prop, tier, replay):
-    level = "model_checking" if prop == "C02" else "fault_enumeration"
-    v = Verdict(prop, tier, "fault_enumeration")
+    v = Verdict(prop, tier, "model_checking" if prop == "C03" else "fault_enumeration")
     wd = vlib.workdir(prop)
     rng = random.Random(f"{prop}-{v.seed}")
     if replay:
@@ -127,6 +126,9 @@ def check_adv(prop, tier, replay):
     extra = {}
     if prop == "C04" and not replay:
         extra = c04_order(v, tier, wd, rng)
+    if prop in ("C02", "C03") and not replay:
+        extra, mstates, mtrans = online_model(v, tier, wd, jobs, out)
+        extra.update({"states": mstates, "transitions": mtrans})
     sites = {}
     for j in jobs:
         t = j["tag"]
@@ -149,11 +151,95 @@ def check_adv(prop, tier, replay):
         "exhaustive": tier == "thorough",
     }
     v.coverage.update(extra)
+    if prop == "C03":
+        v.coverage["traces_validated_against_impl"] = extra.get("symbolic_online_model", {}).get("replayed_outcomes_compared_with_model", 0)
     v.assumptions = ["one corrupted party; it runs the honest code and deviates in the messages it sends (and in tapped bits)",
                      "bytes inside a malformation class are fixed representatives"]
     rc = v.finish()
     shutil.rmtree(wd, ignore_errors=True)
     return rc
+
+
+WHAT_KIND = {"input share bit": "ws_bit", "input share MAC": "ws_mac", "output share bit": "ows_bit", "output share MAC": "ows_mac",
+             "input label": "label", "garbled row": "row_ct", "garbled share": "row_share", "revealed value": "lam_val",
+             "revealed label": "lam_lab", "masked input equivocation": "mi_equiv"}
+
+
+def online_model(v, tier, wd, jobs=None, out=None):
+    """The symbolic online phase (Wrk17Online) checked exhaustively by TLC for small configurations: HonestCorrect,
+    TamperAborts, LabelTamper, Integrity; negative controls (a check left out) must fail; the model's table
+    deviation kind -> error of the consuming check is compared with what the replays on the real code returned."""
+    q = tier == "quick"
+    I = ej.inst
+    c1 = {"input_regs": [1, 1], "insts": [I("I", 0, 0, 0), I("I", 1, 0, 1), I("A", 0, 1, 2), I("N", 2, 0, 2), I("X", 2, 0, 0)],
+          "max_reg": 3, "output_regs": [2, 0], "and_ops": 1}
+    c3 = {"input_regs": [1, 1, 0], "insts": [I("I", 0, 0, 0), I("I", 1, 0, 1), I("A", 0, 1, 2), I("N", 2, 0, 2), I("X", 2, 1, 1)],
+          "max_reg": 3, "output_regs": [2, 1, 2], "and_ops": 1}
+    big = ej.fixed_small(2)[1]
+    plan = [("n2.garbler", c1, 2, 0, [0, 1], 1, None), ("n2.evaluator", c1, 2, 0, [0, 1], 0, None),
+            ("n2.big.garbler", big, 2, 1, [0, 1], 0, [[True], [False]]), ("n2.big.evaluator", big, 2, 1, [0], 1, [[False], [True]]),
+            ("n3.garbler", c3, 3, 1, [0, 2], 2, [[True], [False], []])]
+    if not q:
+        plan += [("n2.evalNotOut", c1, 2, 0, [1], 0, None), ("n3.evaluator", c3, 3, 1, [0, 2], 1, None),
+                 ("n3.garbler.all", c3, 3, 0, [0, 1, 2], 1, None), ("n2.big.all", big, 2, 0, [0, 1], 1, None)]
+    states = trans = 0
+    table = None
+    runs = []
+
+    def mc(name, circ, n, pe, po, c, fix, weak=None):
+        cfg = circ_cfg(circ, n, pe, po)
+        cfg["c"] = c
+        if fix is not None:
+            cfg["fixinputs"] = fix
+        if weak:
+            cfg["weak"] = weak
+        cp = f"{wd}/online-{name}.json"
+        with open(cp, "w") as f:
+            json.dump(cfg, f)
+        return vlib.run_tlc("MC_Online", vlib.SPEC + "/MC_Online.cfg", wd, env={"CFG": cp}, workers=8, timeout=3000)
+
+    for (name, circ, n, pe, po, c, fix) in plan:
+        r = mc(name, circ, n, pe, po, c, fix)
+        if not r["ok"]:
+            raise vlib.ToolError(f"MC_Online reports an error for {name}:\n" + vlib.strip_tlc(r["out"])[-2000:])
+        states += r["distinct"]
+        trans += r["generated"]
+        runs.append({"config": name, "distinct": r["distinct"]})
+        for line in r["out"].splitlines():
+            if line.startswith('"TABLE '):
+                table = json.loads(json.loads(line)[len("TABLE "):])
+    for (weak, c) in (("no_output_mac", 1), ("no_row_mac", 1), ("no_output_label", 0), ("no_input_mac", 0)):
+        r = mc(f"neg-{weak}", c1, 2, 0, [0, 1], c, None, weak=weak)
+        if r["ok"]:
+            raise vlib.ToolError(f"negative control failed: Wrk17Online without {weak} satisfies all invariants")
+    # prediction conformance
+    compared = mismatched = 0
+    if jobs is not None and table is not None:
+        res = {}
+        for r in vlib.read_ndjson(out):
+            if r["ev"] == "cfg":
+                cur = r["run"]
+                res[cur] = {}
+            elif r["ev"] == "res":
+                res[cur][r["p"]] = r
+        for j in jobs:
+            t = j["tag"]
+            kind = WHAT_KIND.get(t.get("what"))
+            if t.get("fam") != "online" or kind is None:
+                continue
+            for vic in t["victims"]:
+                got = res[j["id"]][vic]
+                if got["kind"] != "err":
+                    continue        # judged by the monitor
+                compared += 1
+                if got["err"] != table[kind] and not (kind == "mi_equiv" and "Channel" in got["err"]):
+                    mismatched += 1
+                    if mismatched <= 3:
+                        v.spec_drift(f"Wrk17Online predicts {table[kind]} for '{t['what']}', the real code returned {got['err']} "
+                                     f"(run {j['id']})")
+    return {"symbolic_online_model": {"states": states, "transitions": trans, "configs": runs,
+                                      "negative_controls_failed_as_required": 4,
+                                      "replayed_outcomes_compared_with_model": compared, "mismatches": f"{mismatched} mismatches"}}, states, trans
 
 
 def c04_order(v, tier, wd, rng):
